@@ -1024,3 +1024,27 @@ pub fn pick_idx(x: u32, len: usize) -> usize {
     }
     ((x as u64 * len as u64) >> 32) as usize
 }
+
+/// Run `f` with the process's stdout pointed at /dev/null (some sozu code paths print
+/// diagnostics with `print!`), then restore it. Verdict lines are printed after this returns.
+pub fn with_quiet_stdout<T>(f: impl FnOnce() -> T) -> T {
+    use std::io::Write;
+    let _ = std::io::stdout().flush();
+    let saved = unsafe { libc::dup(1) };
+    let null = unsafe { libc::open(c"/dev/null".as_ptr(), libc::O_WRONLY) };
+    if saved >= 0 && null >= 0 {
+        unsafe { libc::dup2(null, 1) };
+    }
+    let out = f();
+    let _ = std::io::stdout().flush();
+    if saved >= 0 {
+        unsafe {
+            libc::dup2(saved, 1);
+            libc::close(saved);
+        }
+    }
+    if null >= 0 {
+        unsafe { libc::close(null) };
+    }
+    out
+}
